@@ -83,6 +83,11 @@ func goType(t TypeInfo) (reflect.Type, error) {
 		if err != nil {
 			return nil, err
 		}
+		if !keyType.Comparable() {
+			// e.g. map<blob, ...> or a frozen collection / tuple as key:
+			// reflect.MapOf would panic
+			return nil, fmt.Errorf("cannot create Go map type for CQL type %s: key type %s is not comparable", t, keyType)
+		}
 		return reflect.MapOf(keyType, valueType), nil
 	case TypeVarint:
 		return reflect.TypeOf(*new(*big.Int)), nil
